@@ -182,7 +182,23 @@ def constructSeq : Op
         some [ll h0[0]? y, ll h2[0]? y, ll h1[q1]? ys, ll h2[q2]? ys]
   | _ => none
 
+/-- `C13.s1_history events` : a call history on ONE posterior object.  Events: `[s1, out]` (an
+    `evaluateS1` call; `out` = the array it produced at that moment), `[call]`, `[scribble, k, v]` (the
+    caller overwrites the array of the `k`-th `evaluateS1` call) → the content of every handed-out
+    array at the END of the history -/
+def s1History : Op
+  | [ev] => do
+    let l ← ev.list?
+    let evs ← l.mapM (fun e => match e with
+      | .list [.str "s1", out] => out.flts?.map Ev.s1
+      | .list [.str "call"] => some (Ev.call [])
+      | .list [.str "scribble", .int k, v] => v.flts?.map (Ev.scribble k.toNat)
+      | _ => none)
+    some [.list ((hist (fun o => o) [] evs).map ofFlts)]
+  | _ => none
+
 def ops : List (String × Op) :=
   [("C13.layout", layout), ("C13.reshape", reshape), ("C13.gather", gather), ("C13.names", names),
-   ("C13.eval", eval), ("C13.construct_seq", constructSeq)]
+   ("C13.eval", eval), ("C13.construct_seq", constructSeq),
+   ("C13.s1_history", s1History)]
 end ChiDriver.C13
